@@ -23,6 +23,7 @@ ASSUMPTIONS = c11.ASSUMPTIONS
 
 
 def searches(ref, W, k):
+    yield from c11.cross_basetype_last(ref, W)
     for typ in ref.types:
         cands = [p for p in sorted(W.store.paths) if ref.natural(p)[0] == typ] + [s for s in W.leaves if ref.natural(s)[0] == typ]
         if not cands:
